@@ -590,7 +590,7 @@ def discharge(vcs, covers, tier="quick", procs=None, single=False):
                 (st_ == "failed" and getattr(vc, "in_baseline", False) and "incomplete" in (vc.reason or ""))
         discharge._retrying = True
         try:
-            for seed in (0, 7, 23):           # alone, then alone with two other solver seeds: a proof that exists is found by one of them
+            for seed in (7, 23):              # alone again, with two other solver seeds: a proof that exists is found by one of them
                 again = [vc for vc in vcs if exhausted(vc)]
                 if not again:
                     break
